@@ -165,6 +165,30 @@ def _laws(ctx, psize, only=None, pool=None, stream=None):
         if given is None:
             rng = ctx.rng("c01-pool", name, psize)
             pool = A.valid_pool(name, rng, psize)
+            # for up to three members with a letter that stands alone: the same text with that letter in the other case,
+            # and with the next letter in that case (three versions one case-folding line of a comparison confuses)
+            from harness import schemes as S
+            added = 0
+            have = {t for t, _ in pool}
+            for t, _v in list(pool):
+                lone = [i for i, ch in enumerate(t) if ch.isalpha() and ch.isascii() and (i == 0 or not t[i - 1].isalpha())
+                        and (i + 1 == len(t) or not t[i + 1].isalpha())]
+                if not lone or added >= 3:
+                    continue
+                i = lone[-1]
+                sw = t[:i] + t[i].swapcase() + t[i + 1:]
+                nxt = {"z": "y", "Z": "Y"}.get(sw[i], chr(ord(sw[i]) + 1))
+                ok = 0
+                for t2 in (sw, sw[:i] + nxt + sw[i + 1:]):
+                    if t2 in have:
+                        continue
+                    try:
+                        pool.append((t2, S.vclass(name)(t2)))
+                        have.add(t2)
+                        ok += 1
+                    except Exception:  # noqa: BLE001
+                        pass
+                added += 1 if ok else 0
         stream = ("laws:" + name) if given is None else stream
         lt = {}
         gt = {}
